@@ -44,8 +44,8 @@ APIQ, APIT = M("MC_Api", "quick"), M("MC_Api", "thorough", timeout=3000)
 AMORT = [dict(module="Amortized.tla", init="Init", inv="IndInv", length=0),
          dict(module="Amortized.tla", init="IndInit", inv="IndInv", length=1),
          dict(module="Amortized.tla", init="IndInit", inv="Bound", length=0)]
-SIMQ = dict(module="MC_Api.tla", cfg="Replay_Api.cfg", simulate=True, take=1500, depth=20, timeout=60)
-SIMT = dict(module="MC_Api.tla", cfg="Replay_Api.cfg", simulate=True, take=12000, depth=20, timeout=200)
+SIMQ = dict(module="MC_Api.tla", cfg="Replay_Api.cfg", simulate=True, take=1500, num=30, depth=20, timeout=120)
+SIMT = dict(module="MC_Api.tla", cfg="Replay_Api.cfg", simulate=True, take=12000, num=250, depth=20, timeout=400)
 
 SIMS = dict(module="MC_Search.tla", cfg="MC_Search_sim.cfg", simulate=4000, depth=8, workers=4, timeout=400)
 
@@ -63,8 +63,13 @@ PLAN["C07"]["quick"]["miri"] = 2
 PLAN["C08"] = std(mcq=[CWQ, U8Q], mct=[CWT, U8T])
 FMQ, FMT = M("MC_Format", "quick"), M("MC_Format", "thorough", timeout=1800)
 PLAN["C09"] = std(mcq=[APIQ, FMQ], mct=[APIT, FMT], rq=("Replay_quick.cfg", SIMQ), rt=("Replay_thorough.cfg", SIMT))
-PLAN["C10"] = std(mcq=[DAQ], mct=[DAT])
+# build behaviours only, longer collections: empty entries and repeats in every position of every ordered
+# collection of up to 4 (thorough: 5) entries
+RBQ, RBT = "Replay_build_quick.cfg", "Replay_build_thorough.cfg"
+PLAN["C10"] = std(mcq=[DAQ], mct=[DAT], rq=("Replay_quick.cfg", RBQ), rt=("Replay_thorough.cfg", RBT))
 PLAN["C11"] = std(mcq=[DAQ], mct=[DAT])
+# state counts of every ordered collection of up to 4 (5) entries against the real builder
+PLAN["C15"] = std(rq=("Replay_quick.cfg", RBQ), rt=("Replay_thorough.cfg", RBT))
 PLAN["C12"] = std(mcq=[APIQ, CWQ], mct=[APIT, CWT], rq=("Replay_quick.cfg", SIMQ), rt=("Replay_thorough.cfg", SIMT))
 PLAN["C13"] = std(mcq=[WINQ], mct=[WINT])
 for _t in ("quick", "thorough"):
